@@ -13,7 +13,10 @@ RULE = ("every dtype in {bool,int,float,complex,str,date,timedelta,object(mixed)
         "reductions sum, mean, min, max, stdev (sample and population), any, all, and isna/dropna/fillna with compatible, "
         "promoting (int<-float, int<-complex, float<-complex, date<-datetime), incompatible and None fill values on typed, "
         "untyped, all-None and empty vectors; per-group aggregates (sum, mean, min, max, count, stdev) of Table.aggregate and Table.window on "
-        "value columns with random None placement. Oracles: Python's scalar operation per pair, Python's builtin reduction "
+        "value columns with random None placement. gaps (builder gA): dtype declared with a plain Python type (non-nullable on paper, "
+        "None in the data) under every operator, comparison and reduction; every family at 256-1200 elements; tuples as comparison "
+        "operand; aggregates of two value columns with different None placement, of zero rows, of 300 rows. "
+        "Oracles: Python's scalar operation per pair, Python's builtin reduction "
         "of the None-free list. non-trivial = the inputs contain at least one None (for na/red/agg: every case that is not skipped)")
 ASSUMPTIONS = [
     "scalar None as the other operand of a comparison or operator is not generated (it is not an element; v == None warns by design)",
@@ -228,9 +231,94 @@ def gen_agg(rng, tier):
                "k": [rng.choice([1, 2, 3, None]) for _ in range(n)], "win": i % 3 == 2}
 
 
+def gen_gaps(rng, tier):
+    """gap analysis (builder gA): (1) vectors whose dtype was DECLARED with a plain Python type (non-nullable on paper, None in
+    the data) under every operation, not only isna/dropna/fillna; (2) every family on vectors of 256-1200 elements; (3) tuples as
+    the plain sequence of a comparison; (4) aggregates of two value columns with different None placement, of zero rows, of
+    groups of hundreds of rows"""
+    pats = [p for p in all_patterns(3) if any(p)]
+    for xt in CTYPES:
+        for px in pats:
+            for op in BINOPS:
+                yt = PARTNERS[xt][0]
+                for form, refl in c05.FORMS:
+                    if c05.excluded(op, form, refl, yt) or not defined(op, xt, yt, refl):
+                        continue
+                    d = {"fam": "bin", "op": op, "form": form, "refl": refl, "xt": xt, "yt": yt, "x": cfill(rng, xt, px),
+                         "xtyped": "declared"}
+                    if form == "scalar":
+                        d["s"] = rng.randrange(len(CPOOLS[yt]))
+                    else:
+                        d["y"] = cfill(rng, yt, [False] * len(px))
+                    yield d
+            for op in UNOPS:
+                yield {"fam": "unary", "op": op, "xt": xt, "x": cfill(rng, xt, px), "xtyped": "declared"}
+            for op in CMPOPS:
+                yt = CMP_PARTNERS[xt][0]
+                for form in ("vec", "seq", "scalar"):
+                    d = {"fam": "cmp", "op": op, "form": form, "xt": xt, "yt": yt, "x": cfill(rng, xt, px), "xtyped": "declared"}
+                    if form == "scalar":
+                        d["s"] = rng.randrange(len(CPOOLS[yt]))
+                    else:
+                        d["y"] = cfill(rng, yt, [False] * len(px))
+                        d["seqkind"] = rng.choice(["list", "tuple"])
+                    yield d
+            for red in REDS:
+                yield {"fam": "red", "red": red, "xt": xt, "x": cfill(rng, xt, px), "xtyped": "declared"}
+    # size
+    for xt in CTYPES:
+        for n in (256, 300, 1200):
+            px = [rng.random() < 0.3 for _ in range(n)]
+            for red in REDS:
+                yield {"fam": "red", "red": red, "xt": xt, "x": cfill(rng, xt, px)}
+                yield {"fam": "red", "red": red, "xt": xt, "x": cfill(rng, xt, px), "via": "warm", "wform": rng.randrange(2)}
+            for fi in range(len(FILLS[xt])):
+                yield {"fam": "na", "xt": xt, "x": cfill(rng, xt, px), "fill": fi}
+            yield {"fam": "na", "xt": xt, "x": cfill(rng, xt, px), "fill": 0, "xtyped": "declared"}
+            yield {"fam": "na", "xt": xt, "x": cfill(rng, xt, px), "fill": 0, "route": rng.choice(["slice", "mask", "index", "write"])}
+            for op in CMPOPS:
+                yt = rng.choice(CMP_PARTNERS[xt])
+                for form in ("vec", "seq", "scalar"):
+                    d = {"fam": "cmp", "op": op, "form": form, "xt": xt, "yt": yt, "x": cfill(rng, xt, px)}
+                    if form == "scalar":
+                        d["s"] = rng.randrange(len(CPOOLS[yt]))
+                    else:
+                        d["y"] = cfill(rng, yt, [rng.random() < 0.3 for _ in range(n)])
+                        d["seqkind"] = rng.choice(["list", "tuple"])
+                    yield d
+            for op in BINOPS:
+                yt = rng.choice(PARTNERS[xt])
+                form, refl = rng.choice(c05.FORMS)
+                if c05.excluded(op, form, refl, yt) or not defined(op, xt, yt, refl):
+                    continue
+                d = {"fam": "bin", "op": op, "form": form, "refl": refl, "xt": xt, "yt": yt, "x": cfill(rng, xt, px)}
+                if form == "scalar":
+                    d["s"] = rng.randrange(len(CPOOLS[yt]))
+                else:
+                    d["y"] = cfill(rng, yt, [rng.random() < 0.3 for _ in range(n)])
+                yield d
+    # tuples as the plain sequence of a comparison, every None pattern up to length 3
+    for op in CMPOPS:
+        for xt in CTYPES:
+            for px in all_patterns(3):
+                for py in y_patterns(rng, px):
+                    yield {"fam": "cmp", "op": op, "form": "seq", "xt": xt, "yt": CMP_PARTNERS[xt][0], "x": cfill(rng, xt, px),
+                           "y": cfill(rng, CMP_PARTNERS[xt][0], py), "seqkind": "tuple"}
+    # aggregates
+    for i in range(400 if tier == "quick" else 8000):
+        xt = rng.choice(["int", "float", "bool", "int", "float", "str", "date", "td", "complex"])
+        n = rng.choice([0, 1, 2, 3, 4, 6, 9, 9, 300])
+        yield {"fam": "agg", "xt": xt, "x": cfill(rng, xt, [rng.random() < 0.35 for _ in range(n)]),
+               "y": cfill(rng, xt, [rng.random() < 0.35 for _ in range(n)]),
+               "k": [rng.choice([1, 2, 3, None]) for _ in range(n)], "win": i % 3 == 2}
+    for win in (False, True):
+        for xt in ("int", "float", "str"):
+            yield {"fam": "agg", "xt": xt, "x": [], "k": [], "win": win}
+
+
 def generate(rng, tier):
-    gens = [gen_arith(rng, tier), gen_cmp(rng, tier), gen_red(rng, tier), gen_na(rng, tier), gen_agg(rng, tier)]
-    weights = [16, 8, 1, 1, 1]
+    gens = [gen_arith(rng, tier), gen_cmp(rng, tier), gen_red(rng, tier), gen_na(rng, tier), gen_agg(rng, tier), gen_gaps(rng, tier)]
+    weights = [16, 8, 1, 1, 1, 3]
     alive = list(range(len(gens)))
     while alive:
         for gi in list(alive):
@@ -330,7 +418,8 @@ def cmp_wire(spec):
         pairs = [(x, other) for x in xs]
     else:
         ys = [oval(i) for i in spec["y"]]
-        other = cvector("str" if iso_mode else "datetime" if dtm_mode else spec["yt"], ys, spec.get("ytyped", False)) if form == "vec" else list(ys)
+        other = cvector("str" if iso_mode else "datetime" if dtm_mode else spec["yt"], ys, spec.get("ytyped", False)) if form == "vec" \
+            else (tuple(ys) if spec.get("seqkind") == "tuple" else list(ys))
         case["ys"] = [I.uid(y) for y in ys]
         if form == "vec":
             case["ydt"] = dtype_wire(other.schema())
@@ -555,16 +644,67 @@ def agg_oracle(I, a, nn):
     return oracle_code(I, a, nn)
 
 
+def agg2_wire(spec):
+    """two value columns with their own None placement under every aggregate at once: each (group, column, aggregate) is one item"""
+    from serif import Table
+    I = Interner()
+    cols_in = [cvals(spec["xt"], spec["x"]), cvals(spec["xt"], spec["y"])]
+    ks = spec["k"]
+    try:
+        t = Table({"k": ks, "x": cols_in[0], "y": cols_in[1]})
+    except Exception as e:
+        return {"skip": "could not build the table: " + type(e).__name__}
+    if ks and all(k is None for k in ks):
+        return {"skip": "all-None key column"}
+    f = t.window if spec.get("win") else t.aggregate
+    both = lambda: [t.x, t.y]
+    r, err = G.run(lambda: f(over=t.k, sum_over=both(), mean_over=both(), min_over=both(), max_over=both(),
+                             count_over=both(), stdev_over=both()))
+    groups = {}
+    for i, k in enumerate(ks):
+        groups.setdefault(k, []).append(i)
+    items, got = [], []
+    if err:
+        for k, rows in groups.items():
+            for c in cols_in:
+                g = [c[i] for i in rows]
+                nn = [x for x in g if x is not None]
+                for a in AGGS:
+                    code, _ = agg_oracle(I, a, nn)
+                    items.append({"name": a, "xs": [I.uid(x) for x in g], "key": [I.uid(x) for x in nn], "res": code})
+        if not items:
+            return {"fam": "agg", "case": {"items": []}, "impl": {"err": err}}
+        return {"fam": "agg", "case": {"items": items}, "impl": {"err": err}}
+    cols = list(r.cols())
+    if len(cols) != 1 + 2 * len(AGGS):
+        return {"fam": "agg", "case": {"items": []}, "impl": {"err": "other:unexpected-columns"}, "py_fail":
+                f"aggregate returned {len(cols)} columns"}
+    for row, k in enumerate(list(cols[0])):
+        rows = groups.get(k)
+        if rows is None:
+            return {"skip": "group key not found (C12)"}
+        for j, a in enumerate(AGGS):
+            for ci, c in enumerate(cols_in):
+                g = [c[i] for i in rows]
+                nn = [x for x in g if x is not None]
+                code, want = agg_oracle(I, a, nn)
+                items.append({"name": a, "xs": [I.uid(x) for x in g], "key": [I.uid(x) for x in nn], "res": code})
+                got.append(obs_scalar(I, list(cols[1 + 2 * j + ci])[row], want, code))
+    return {"fam": "agg", "case": {"items": items}, "impl": {"ok": got}}
+
+
 def agg_wire(spec):
     from serif import Table
     I = Interner()
     xs = cvals(spec["xt"], spec["x"])
     ks = spec["k"]
+    if "y" in spec:
+        return agg2_wire(spec)
     try:
         t = Table({"k": ks, "x": xs})
     except Exception as e:
         return {"skip": "could not build the table: " + type(e).__name__}
-    if all(k is None for k in ks):
+    if ks and all(k is None for k in ks):
         return {"skip": "all-None key column"}
     # window() computes the same per-group aggregates and hands them to every row of the group: the loop below looks each
     # output row's group up by its key, so it judges both forms
